@@ -447,6 +447,17 @@ Proof.
   intros w r w' F H.
   apply wbind_inv in H as [(c & w1 & H1 & H) | (e & H1 & _)]; [|eapply ff_deep_copy; eauto].
   destruct (dc_spec_all _ _ _ _ _ _ F H1) as (F1 & R1 & Hc). pose proof (Hc c eq_refl) as ->.
+  (* three read-only steps and the refusal of a nameless copy *)
+  apply wbind_inv in H as [(cn0 & w2 & H2 & H) | (e & H2 & _)].
+  2:{ assert (w' = w1) by (refine ((_ : ro (get_node (w_next w))) _ _ _ H2); ro_tac). subst. auto. }
+  assert (w2 = w1) by (refine ((_ : ro (get_node (w_next w))) _ _ _ H2); ro_tac). subst w2. clear H2.
+  apply wbind_inv in H as [(nv & w2 & H2 & H) | (e & H2 & _)].
+  2:{ assert (w' = w1) by (refine ((_ : ro (wl (is_named_in_version T (n_type cn0) version))) _ _ _ H2); ro_tac). subst. auto. }
+  assert (w2 = w1) by (refine ((_ : ro (wl (is_named_in_version T (n_type cn0) version))) _ _ _ H2); ro_tac). subst w2. clear H2.
+  apply wbind_inv in H as [(id0 & w2 & H2 & H) | (e & H2 & _)].
+  2:{ assert (w' = w1) by (refine ((_ : ro (is_identifiable T cn0)) _ _ _ H2); ro_tac). subst. auto. }
+  assert (w2 = w1) by (refine ((_ : ro (is_identifiable T cn0)) _ _ _ H2); ro_tac). subst w2. clear H2.
+  destruct (nv && negb id0); [apply wfail_inv in H as (_ & ->); auto|].
   apply wbind_inv in H as [(path & w2 & H2 & H) | (e & H2 & _)].
   2:{ assert (w' = w1) by (refine ((_ : ro (path_unchecked T n)) _ _ _ H2); ro_tac). subst. auto. }
   assert (w2 = w1) by (refine ((_ : ro (path_unchecked T n)) _ _ _ H2); ro_tac). subst w2.
